@@ -31,6 +31,7 @@ class ScriptedTransport(AbstractMessagingTransport):
         self.fail_sends = False
         self.name = name
         self.on_sent = None
+        self.on_pull = None
         self.log = None
 
     # -- outgoing ------------------------------------------------------------------------------
@@ -75,13 +76,29 @@ class ScriptedTransport(AbstractMessagingTransport):
     async def next_frame_generator(self):
         item = await self._incoming_frame_queue.get()
         if item is EOF_MARK:
+            if self.on_pull:
+                self.on_pull('LOST', None)
             return None
         if isinstance(item, Exception):
+            if self.on_pull:
+                self.on_pull('LOST', None)
             raise item
+        tag = None
+        if isinstance(item, tuple):
+            tag, item = item
         if isinstance(item, (bytes, bytearray)):
-            return self._frame_parser.receive_data(bytes(item), 0)
+            parser, on_pull = self._frame_parser, self.on_pull
+
+            async def pgen():
+                async for fr in parser.receive_data(bytes(item), 0):
+                    if on_pull:
+                        on_pull(tag, fr)
+                    yield fr
+            return pgen()
 
         async def gen():
+            if self.on_pull:
+                self.on_pull(tag, item)
             yield item
         return gen()
 
